@@ -38,3 +38,43 @@ Proof.
   pose proof (encrypt_all_nonces (rnd + 1) r) as Hf. rewrite Forall_forall in Hf.
   destruct (Hf c Hin) as (k' & n & p & -> & Hn). cbn in Hc. inversion Hc. lia.
 Qed.
+
+(* data keys of sessions: every login gets a key no other login of the run has, whatever its callback request carried *)
+Lemma mint_all_deks_ge rnd logins : Forall (fun t => rnd <= st_dek t) (mint_all rnd logins).
+Proof.
+  revert rnd. induction logins as [|[k c] r IH]; intros rnd; cbn; [constructor|].
+  constructor; [cbn; lia|]. eapply Forall_impl; [|apply IH]. cbn. intros t Ht. lia.
+Qed.
+
+Theorem data_keys_never_repeat rnd logins : NoDup (map st_dek (mint_all rnd logins)).
+Proof.
+  revert rnd. induction logins as [|[k c] r IH]; intros rnd; cbn; [constructor|].
+  constructor; [|apply IH].
+  intros Hin. apply in_map_iff in Hin as (t & Ht & Hin).
+  pose proof (mint_all_deks_ge (rnd + 1) r) as Hf. rewrite Forall_forall in Hf. specialize (Hf t Hin). cbn in Ht. lia.
+Qed.
+
+(* the carried ticket plays no role *)
+Lemma mint_all_ignores_carried rnd logins : mint_all rnd logins = mint_all rnd (map (fun l => (fst l, None)) logins).
+Proof. revert rnd. induction logins as [|[k c] r IH]; intros rnd; cbn; [reflexivity|]. now rewrite IH. Qed.
+
+Lemma nodup_nth_error_inj (l : list N) i j x : NoDup l -> nth_error l i = Some x -> nth_error l j = Some x -> i = j.
+Proof.
+  intros Hnd Hi Hj. apply (proj1 (NoDup_nth_error l) Hnd); [apply nth_error_Some; congruence|congruence].
+Qed.
+
+(* substitution between sessions: the ticket of one login never opens the stored value of another login of the run *)
+Theorem other_sessions_blob_rejected rnd logins i j t u nonce data :
+  nth_error (mint_all rnd logins) i = Some t -> nth_error (mint_all rnd logins) j = Some u -> i <> j ->
+  open_with_ticket t u nonce data = None.
+Proof.
+  intros Hi Hj Hne. unfold open_with_ticket, session_blob. cbn.
+  destruct (N.eqb (st_dek u) (st_dek t)) eqn:E; [|reflexivity]. apply N.eqb_eq in E. exfalso. apply Hne.
+  eapply (nodup_nth_error_inj (map st_dek (mint_all rnd logins)) i j (st_dek t)).
+  - apply data_keys_never_repeat.
+  - rewrite nth_error_map, Hi. reflexivity.
+  - rewrite nth_error_map, Hj. cbn. now rewrite E.
+Qed.
+
+Theorem own_blob_opens t nonce data : open_with_ticket t t nonce data = Some data.
+Proof. unfold open_with_ticket, session_blob. cbn. now rewrite N.eqb_refl. Qed.
